@@ -10,7 +10,6 @@ import (
 	"strings"
 
 	"verif/harness/internal/core"
-	"verif/harness/internal/gd"
 	"verif/harness/internal/tlc"
 )
 
@@ -114,7 +113,7 @@ func c07Chains(c *core.Ctx, bin string) (int, error) {
 		if err := writeFiles(dirR, chainFiles(cc.V1)); err != nil {
 			return 0, err
 		}
-		r1, err := gd.Run(c, bin, filepath.Join(dirR, "p"), []string{"."}, "", 0)
+		r1, err := runJudged(c, bin, filepath.Join(dirR, "p"), []string{"."}, "", nil)
 		if err != nil {
 			return 0, err
 		}
@@ -127,12 +126,12 @@ func c07Chains(c *core.Ctx, bin string) (int, error) {
 		if err := writeFiles(dirS, chainFiles(cc.V2)); err != nil {
 			return 0, err
 		}
-		rs, err := gd.Run(c, bin, filepath.Join(dirS, "p"), []string{"."}, "", 0)
+		rs, err := runJudged(c, bin, filepath.Join(dirS, "p"), []string{"."}, "", nil)
 		if err != nil {
 			return 0, err
 		}
 		trace := filepath.Join(root, "trace.ndjson")
-		r2, err := gd.Run(c, bin, filepath.Join(dirR, "p"), []string{"."}, trace, 0)
+		r2, err := runJudged(c, bin, filepath.Join(dirR, "p"), []string{"."}, trace, nil)
 		if err != nil {
 			return 0, err
 		}
